@@ -254,6 +254,35 @@ def run_symx_check(module, tier, seed):
             engine_errors.append("harness %s completed no path (vacuous)" % name)
         elif reached.get(name, 0) == 0:
             engine_errors.append("harness %s never reached its obligations on any completed path (vacuous)" % name)
+    # concrete probes: the same harnesses, run natively on hand-picked inputs the solver's models would not pick
+    # (IEEE magnitudes, structures the engine cannot carry symbolically); failures are concrete counterexamples
+    probes = getattr(module, "PROBES", None)
+    n_probes = 0
+    if probes:
+        from . import symx as _symx
+        plist = probes(tier) if callable(probes) else probes
+        for fn, params, inputs, model in plist:
+            n_probes += 1
+            h = getattr(module, fn)
+            failed = None
+            for exact in (False, True):
+                try:
+                    cc = _symx.run_concrete(h, params, inputs, model, exact=exact)
+                except Exception as e:  # noqa: B902
+                    engine_errors.append("probe %s %r crashed: %s: %s" % (fn, inputs, type(e).__name__, e))
+                    failed = None
+                    break
+                bad = cc.failed_conc + cc.failed_conc_only
+                if not bad:
+                    failed = None
+                    break
+                failed = bad  # must fail with python floats AND in exact arithmetic to count
+            if failed:
+                lab, occ, det = failed[0]
+                violations.append({"harness": "probe:" + fn, "fn": fn, "module": module.__name__, "property": prop,
+                                   "label": lab, "occurrence": occ, "inputs": _symx.jsonable(inputs),
+                                   "params": _symx.jsonable(params), "model": model, "status": "confirmed",
+                                   "detail": _symx.jsonable(det), "replayed_with": ["float", "fraction"]})
     extra = {}
     if hasattr(module, "extra"):
         extra = module.extra(tier, seed) or {}
@@ -290,6 +319,8 @@ def run_symx_check(module, tier, seed):
         "tasks": len(tasks),
     }
     coverage.update(extra)
+    if probes:
+        coverage["concrete_probes"] = n_probes
     return finish(prop, tier, seed, "model_checking", coverage, module.ASSUMPTIONS, t0,
                   violations, engine_errors, inconclusive, getattr(module, "PREDICATES", {}))
 
